@@ -210,7 +210,7 @@ ROLE_INFERENCE[("groupby.numba", "_group_func_wrap")] = _roles_group_func_wrap
 
 # ---------------------------------------------------------------------------------- locals that name one array cell
 
-def inline_cell_reads(f: Func) -> Func:
+def inline_cell_reads(f: Func, skip: Set[str] = frozenset()) -> Func:
     """`t = A[i]` ... use of `t`  ->  use of `A[i]`, for a local with ONE definition whose right-hand side reads one cell of an
     array through names only, when no store to `A` and no re-binding of the index names lies (textually) between the definition
     and the use inside the same loop body.  Rules that recognise an expression by the cells it reads (`times[i] - clock[k]`)
@@ -242,7 +242,7 @@ def inline_cell_reads(f: Func) -> Func:
             continue
         for s in walk_stmts(loop.body):
             if isinstance(s, ast.Assign) and len(s.targets) == 1 and isinstance(s.targets[0], ast.Name) \
-                    and stores.get(s.targets[0].id) == 1 and s.targets[0].id not in loop_targets \
+                    and stores.get(s.targets[0].id) == 1 and s.targets[0].id not in loop_targets and s.targets[0].id not in skip \
                     and isinstance(s.value, ast.Subscript) and isinstance(s.value.value, ast.Name) \
                     and all(isinstance(x, (ast.Name, ast.Constant, ast.Tuple, ast.Load)) for x in ast.walk(s.value.slice)):
                 cand[s.targets[0].id] = (s, loop)
